@@ -176,7 +176,7 @@ func checkC15(c *Ctx) {
 	// (covered above by valid-0 x missing-dir)
 
 	// ---- encrypt ----
-	for _, n := range []int{0, 10, chunkSize + 5} {
+	for _, n := range []int{0, 10, chunkSize, chunkSize + 5} {
 		plain := c.rng.bytes(n)
 		os.WriteFile(filepath.Join(dir, "plain.bin"), plain, 0o600)
 		for _, armor := range []bool{false, true} {
